@@ -2,17 +2,32 @@
 from contracts import c18_medium as C
 from contracts import c18_mip as CMIP
 from contracts import c18_medium_prop as CPROP
+from contracts import c18_asmedium as CAM
+from contracts import c18_minmedium as CMM
+from contracts import c18_boundary as CB
+from contracts import w_reaction_sides as WRS
 from pyvc.contract import chain_hooks
 from props._generic import run_property, replay_with_driver
 
 LEVEL = "other"
 KEYS = ["medium.is_active", "medium.get_active_bound", "medium.set_active_bound", "Model.medium@getter", "Model.medium@setter",
         "add_linear_obj", "add_mip_obj"]
+AS_MEDIUM_KEYS = [CAM.KEY]
+MINIMAL_MEDIUM_KEYS = [CMM.ALO, CMM.KEY]
+BOUNDARY_KEYS = [CB.IBT, CB.FBT]
 
 
 def run(rep):
-    run_property(rep, KEYS, hooks=chain_hooks(CPROP.HOOKS, CMIP.HOOKS), lemmas=lambda: C.lemmas() + CPROP.lemmas() + CMIP.lemmas(),
+    run_property(rep, KEYS, hooks=chain_hooks(CPROP.HOOKS, CMIP.HOOKS),
+                 more=[(AS_MEDIUM_KEYS, CAM.HOOKS), (MINIMAL_MEDIUM_KEYS, CMM.HOOKS), (BOUNDARY_KEYS, CB.HOOKS),
+                       (["Reaction.reactants@getter:body", "Reaction.products@getter:body"], WRS.HOOKS)],
+                 lemmas=lambda: C.lemmas() + CPROP.lemmas() + CMIP.lemmas() + CB.lemmas() + CMM.lemmas(),
                  explanation=(
+        "What the ghost flags has_reactants / has_products MEAN is proved on the real bodies of Reaction.reactants / Reaction.products "
+        "(materialised reaction, stoichiometry dictionary of any size): a new list of exactly the metabolites with coefficient < 0 "
+        "resp. > 0 (both inclusions, non-empty iff such a metabolite exists); for products under the stated precondition that no "
+        "metabolite is stored with coefficient 0 - the body keeps v >= 0 where the documentation says > 0 (finding: after r *= 0 "
+        "every metabolite is listed as a product). "
         "Deductive (kernel): the three nested accessor functions of Model.medium are proved over an abstract exchange "
         "(has_reactants, has_products, lb, ub): is_active, get_active_bound (import bound by the direction of writing) and "
         "set_active_bound (sets exactly the import-side bound, leaves the export bound and every other reaction untouched; raises "
@@ -56,10 +71,43 @@ def run(rep):
         "counts the active imports PROVIDED M bounds the import flux, which is why M must range over both bounds and absolute values. "
         "Not claimed: that M is finite (an infinite exchange bound makes big_m infinite - the term is then still the one stated), "
         "model.variables / model.problem are opaque (the size warning is dropped). "
-        "minimal_medium's driver loop and the optimality of its answers are NOT proved: "
-        "bounded driver (exchanges written both ways, sub-dictionaries, sufficiency and minimality against the exact LP / subset "
-        "enumeration)."),
-        trusted=["Reaction.reactants/products non-empty iff the reaction has negative/positive coefficients (assumed contracts)",
+        "minimal_medium._as_medium is proved per exchange over a symbolic list (loop invariant; the pandas Series as the ordered mapping "
+        "label -> value, assumed): with flux(r) the assumed Reaction.flux of the current solution and imp(r) = -flux(r) for an exchange "
+        "with a reactant (`met -->`), flux(r) otherwise, the returned Series has the id of every exchange with |flux| >= tolerance and "
+        "(exports or imp > 0) as a label with value imp(r), and every label is such an id (precondition: at most one reactant per "
+        "exchange, pairwise different ids, finite tolerance) - import fluxes, by the direction of writing, export entries only on "
+        "request. minimal_medium ITSELF is proved for the default branch (minimize_components False; open_exchanges False / True / a "
+        "number >= 0) as data flow over a ghost trace of the calls with the state in force at each: everything happens inside ONE own "
+        "context that is closed again on every exit, `return None` included; open_exchanges sets the bounds of exactly the exchanges to "
+        "(-b, b) (b the number given, 1000 for True; loop invariant over the exchange list) and leaves every other reaction alone; "
+        "exactly one constraint Constraint(<objective expression AT ENTRY>, lb=min_objective_value, name='medium_obj_constraint') - a "
+        "lower bound only - goes through model.add_cons_vars in one call, followed by solver.update(), before the objective is replaced "
+        "by Zero (assumed: no linear coefficients) and add_linear_obj is applied by its PROVED contract (re-proved over the fixed-name "
+        "exchange list as add_linear_obj[EX]): in the state the ONE slim_optimize sees, the objective has coefficient 1 on the import "
+        "variable of every exchange and 0 on every other variable, direction min, and the bounds are the opened (or entry) ones; None "
+        "is returned EXACTLY when the status after that solve is not optimal, otherwise the Series is _as_medium(EX, feasibility "
+        "tolerance, exports) by its proved contract over the fluxes of THAT solve, computed inside the context. For "
+        "minimize_components=True (ONE medium; precondition: at least one exchange - without, add_mip_obj's ValueError case) the same "
+        "context / opening / pin, then add_mip_obj by its PROVED contract restated for the call site (the rows handed to "
+        "add_cons_vars, M the largest |bound| of the exchanges in force at that call, i.e. of the opened bounds; coefficient 1 on "
+        "every indicator, 0 on every other variable term, direction min, in the state BOTH solves see), a first solve (None when "
+        "not optimal), the still empty exclusion row Constraint(Zero, ub=0) through add_cons_vars + update, a second solve; None "
+        "when the second status is not optimal or its value exceeds the first optimum (the code's numerical-instability exit), else "
+        "_as_medium of the SECOND solve; five lemmas: the call-site form of add_mip_obj used there follows, conjunct by conjunct, from "
+        "the post-condition proved for it. NOT proved: minimize_components = n > 1 (the loop collecting alternative media with the "
+        "exclusion row over the union of the components seen) and the optimality of the solver's answers: bounded driver (exchanges "
+        "written both ways, sub-dictionaries, sufficiency and minimality against the exact LP / subset enumeration). boundary_types.is_boundary_type is proved to BE the decision table (three "
+        "boundary types; SBO(r) = upper-case `sbo` annotation, first entry of a list): SBO term of the type -> True whatever else "
+        "holds, SBO term of another of the five types -> False, otherwise Reaction.boundary and no fragment of excludes[type] "
+        "occurring ANYWHERE in the id (annotations.py documents prefixes; the code tests containment - stated as the code has it) and "
+        "the external compartment among (exchange) / not among (demand, sink) the reaction's compartments and (demand) not reversible "
+        "/ (sink) reversible; find_boundary_types returns [] when model.boundary is empty and otherwise, in the order of "
+        "model.reactions, exactly the members the table accepts for the compartment given, else for the ONE value "
+        "find_external_compartment returned (its RuntimeError propagates); the predicate handed to DictList.query is shown to be the "
+        "table by executing the lambda on an arbitrary member. Lemmas: for `exchange` the decision reads no bound (the exchange list "
+        "is the same before and after a change of bounds); an accepted reaction is a boundary reaction unless it carries the SBO term "
+        "- the single-metabolite assumption of the assumed exchange lists concerns annotated reactions only."),
+        trusted=["the abstraction step only: the ghost flags has_reactants / has_products / n_reactants / n_products of a symbolic reaction stand for the lists proved in contracts/w_reaction_sides.py (Reaction.reactants/products themselves are no longer assumed)",
                  "find_boundary_types / model.exchanges (heuristics; assumed to return single-metabolite reactions of the model)",
                  "Model.medium getter / setter: model.exchanges (assumed contract find_boundary_types[medium]) is a list of elements of "
                  "model.reactions, each with exactly one non-empty side (Reaction.boundary), and a function of the model structure - no "
@@ -72,7 +120,20 @@ def run(rep):
                  "add_mip_obj: find_boundary_types(model, 'exchange') is a function of the model (fixed-name list EX); "
                  "model.add_cons_vars / solver.update are recorded in a ghost trace, their effect on the solver is optlang's; "
                  "big-M spec constant M defined by axiom as max |bound| (existence: finite non-empty list; NaN excluded by A2)",
-                 "opaque algebra (pyvc.npalg): optlang constructors and expression operators are pure functions of their arguments"])
+                 "opaque algebra (pyvc.npalg): optlang constructors and expression operators are pure functions of their arguments",
+                 "_as_medium: Reaction.flux (assumed getter: finite net flux of the current solution, ghost heap field renewed by every "
+                 "solve); pandas Series as an ordered mapping (pd.Series() empty, s[label] = v, s[s > 0] keeps exactly the positive "
+                 "entries)",
+                 "minimal_medium: find_boundary_types[minimal_medium] (assumed: a fixed-name list of pairwise different reactions of the "
+                 "model with pairwise different ids, one metabolite, two distinct solver variables each - the same list inside "
+                 "add_linear_obj); `model.objective = Zero` installs an objective without linear coefficients, direction max (assumed; "
+                 "reversibility of the setter: C03); Model.slim_optimize / Model.__enter__ / __exit__ / Reaction.bounds setter by their "
+                 "proved C04 / C03 / C01 contracts; add_cons_vars / solver.update recorded, their solver-side effect is optlang's; the "
+                 "context exit's reverting of bounds / constraint / objective is C03 / C13, not replayed in this heap model",
+                 "boundary_types: reaction.annotation.get('sbo', '') (a string or a non-empty list: ghost), str.upper and substring "
+                 "test as uninterpreted functions, Reaction.compartments as a ghost relation, Reaction.boundary (C17 ghost flag), "
+                 "find_external_compartment (returns a string or raises RuntimeError), DictList.query(callable) as an order-preserving "
+                 "filter; the tables sbo_terms / excludes are copied from annotations.py and compared with the source at import"])
 
 
 def replay(payload):
